@@ -413,4 +413,12 @@ def check(run, project):
         c09.check(RuleView(run, "S3", "P8"), project)
     except AnalysisError as ex:
         run.info(f"P8: the stream's encryption predicate could not be followed ({ex}); not judged here (C09 reports it)")
+    # P9 (= C15-F1): "the same input with the same arguments": the arguments reach the decoder through every front-end on
+    # every branch (a branch that drops them decodes with the defaults, and the result no longer compares equal to the
+    # decode of the same message with the same arguments through another branch)
+    from . import c15
+    try:
+        c15.f1_f2(RuleView(run, "F1", "P9"), project)
+    except AnalysisError as ex:
+        run.info(f"P9: the front-ends could not be followed ({ex}); not judged here (C15 reports it)")
 
